@@ -9,5 +9,4 @@ CONSTANTS
  Steps = {1000}
  MaxTime = 5000
 INVARIANTS QbftRoundHasTime Safety
-VIEW View
 CHECK_DEADLOCK FALSE
